@@ -253,3 +253,20 @@ Fixpoint tape_ok (v : bval) : bool :=
   | VObj fs _ => forallb (fun f : bfield => tape_ok (bf_val f)) fs
   end.
 Definition tape_ok_doc (fs : list bfield) : bool := forallb (fun f : bfield => tape_ok (bf_val f)) fs.
+
+(* ------------------------------------------------------------------ the statement-level names *)
+(* the specification at the fuel the entry points use *)
+Definition spec_of (cfg : bcfg) (sh : shape) (fs : list bfield) (g : bool) : outcome dval :=
+  spec_value cfg (deser_fuel sh (enc_doc fs g)) sh fs g.
+Definition fits_shape (cfg : bcfg) (sh : shape) (fs : list bfield) (g : bool) : Prop :=
+  spec_of cfg sh fs g <> Err EC_UNFIT.
+
+(* a document without its ghost objects *)
+Fixpoint erase_val (v : bval) : bval :=
+  match v with
+  | VArr vs => VArr (map erase_val vs)
+  | VObj fs _ => VObj (map (fun f : bfield => (false, bf_key f, erase_val (bf_val f))) fs) false
+  | _ => v
+  end.
+Definition erase_field (f : bfield) : bfield := (false, bf_key f, erase_val (bf_val f)).
+Definition erase_fields (fs : list bfield) : list bfield := map erase_field fs.
